@@ -73,7 +73,7 @@ def make_value(ex: Executor, st: State, spec, name: str, register_input=True):
         if n is None:
             n = z3.Int(name + ".len")
             ctx.global_axioms.append(n >= 0)
-        sq = Seq(spec.kw["seqkind"], n, fn=lambda j, f=f: f(to_int(j)), et=et) if not isinstance(n, int) else \
+        sq = Seq(spec.kw["seqkind"], n, fn=lambda j, f=f: f(to_int(j)), et=et, uf=f) if not isinstance(n, int) else \
             Seq(spec.kw["seqkind"], n, items=[f(z3.IntVal(k)) for k in range(n)], et=et)
         if register_input:
             ctx.inputs[name] = sq
@@ -109,6 +109,10 @@ class Contract:
         return {}
 
     def ensures(self, s, r):
+        return {}
+
+    def lemmas(self):
+        """name -> closed z3 formula: proved on their own (no hypotheses) and then available as axioms of the unit"""
         return {}
 
     def ensures_on_raise(self, s, exc):
@@ -328,6 +332,11 @@ def verify_contract(c: Contract, cfg_label: str, cfg: dict, repo_src: str, regis
     ctx.snapshot_root = snapshot_root
     ctx.config = cfg
     ctx.uninterpreted = dict(getattr(c, "uninterpreted", {}) or {})
+    ctx.bounded = cfg.get("_size") is not None
+    if ctx.bounded:
+        for cc in registry.values():
+            ctx.inline.update(getattr(cc, "inline_callees", ()) or ())
+    ctx.inline.update(getattr(c, "inline_callees", ()) or ())
     ex = Executor(ctx)
     st = State()
     rr = RunResult()
@@ -356,6 +365,9 @@ def verify_contract(c: Contract, cfg_label: str, cfg: dict, repo_src: str, regis
         entry_env = {k: v for k, v in env.items() if not k.startswith("$")}
         rr.entry_env = entry_env
         entry_state = st.fork()
+        for lname, formula in (c.lemmas() or {}).items():
+            ob = ctx.add_obligation(State(), "lemma", lname, formula)
+            ctx.global_axioms.append(formula)
         with spec_context(ex, st):
             req = normalise_clauses(ex, st, c.requires(NS(st, entry_env)))
         for cname, cond in req.items():
